@@ -271,6 +271,36 @@ Example C28_chain_partition_nonvacuous :
   end.
 Proof. vm_compute. reflexivity. Qed.
 
+(* ---- chain encoding: subsumption test, descendant enumeration and count == brute force ---- *)
+(* on EVERY poset from_edges accepts (the chain encoding can be selected by the probe or forced on any
+   poset): reach maps hold the least reachable position per chain, so subsumes == the closure, and
+   the per-chain suffixes enumerate each descendant exactly once *)
+Theorem C28_chain_reachable : forall n edges p m r,
+  (forall c q, In (c, q) edges -> c < n /\ q < n) ->
+  from_edges n edges = inl p ->
+  forall x y, x < n -> y < n ->
+  let ix := mk_index p (build_chain p) m r in
+  subsumes ix x y = spec_subsumes p x y /\
+  NoDup (descendants ix y) /\ (forall z, In z (descendants ix y) <-> In z (spec_desc p y)) /\
+  descendant_count ix y = length (spec_desc p y).
+Proof.
+  intros n edges p m r Hr H x y Hx Hy.
+  destruct (from_edges_wf n edges p Hr H) as [[rk W] [TO [Hn _]]]. subst n.
+  destruct (chain_descendants p rk W TO m r y Hy) as [D1 [D2 [D3 D4]]].
+  cbv zeta. repeat split; auto; try apply D2.
+  - apply (chain_subsumes p rk W TO); auto.
+  - congruence.
+Qed.
+
+Example C28_chain_nonvacuous :
+  match from_edges 4 [(3, 1); (3, 2); (1, 0); (2, 0)] with
+  | inl p => let ix := mk_index p (build_chain p) None [] in
+             subsumes ix 3 0 = true /\ subsumes ix 2 1 = false /\ descendants ix 0 = [0; 1; 3; 2] /\
+             descendant_count ix 2 = 2
+  | inr _ => False
+  end.
+Proof. vm_compute. repeat split; reflexivity. Qed.
+
 (* ---- per-chain suffix folds (chain encoding roll-ups), all chain lengths, all four monoids ---- *)
 Theorem C28_monoid_laws : forall o,
   (forall a b c, combine o a (combine o b c) = combine o (combine o a b) c) /\
@@ -315,7 +345,7 @@ Definition C28_from_edges_complete_full : Prop :=
   ~ exists rk : nat -> nat, forall c q, In (c, q) edges -> rk c < rk q.
 
 (* subsumption / descendants / count under EVERY encoding the probe can select or that can be forced
-   (proved for nested-set: C28_nested_reachable; open for chain and near-tree) *)
+   (proved for nested-set: C28_nested_reachable, and for chain: C28_chain_reachable; open for near-tree) *)
 Definition C28_subsumes_desc_full : Prop :=
   forall p rk f en m r, wf_poset p rk -> topo_ok p -> build_enc p f = inl en ->
   forall x y, x < pn p -> y < pn p ->
@@ -362,6 +392,7 @@ Print Assumptions C28_nested_rollup.
 Print Assumptions C28_nested_update_commutes.
 Print Assumptions C28_segtree.
 Print Assumptions C28_chain_partition.
+Print Assumptions C28_chain_reachable.
 Print Assumptions C28_nested_subsumes.
 Print Assumptions C28_nested_desc.
 Print Assumptions C28_fenwick_build.
